@@ -88,6 +88,19 @@ class Pools:
             self.replaced = getattr(self, "replaced", 0) + 1
             return self.get(devices).submit(fn, *args)
 
+    def result_or_retry(self, fut, devices: int, resubmit, timeout: float = 600):
+        """Result of `fut`; if its worker died, replace the pool and run `resubmit()` once more."""
+        try:
+            return fut.result(timeout=timeout)
+        except BaseException as e:  # noqa: BLE001
+            if "BrokenProcessPool" not in type(e).__name__ and "terminated abruptly" not in str(e):
+                raise
+            old = self.pools.pop(devices, None)
+            if old is not None:
+                old.shutdown(wait=False, cancel_futures=True)
+            self.retried = getattr(self, "retried", 0) + 1
+            return resubmit().result(timeout=timeout)
+
     def call_custom(self, devices: int, fn_path: str, *args, timeout: float = 900):
         """submit_custom + result, re-executed once if the worker died."""
         try:
